@@ -4,6 +4,9 @@ use super::*;
 
 #[cfg(all(kani, test))]
 mod replay {
+    extern crate std;
+    #[allow(unused_imports)]
+    use std::{vec, vec::Vec};
     use super::*;
     include!(concat!(env!("VERIF_REPLAY_DIR"), "/statime_csptp__server.rs"));
 }
